@@ -19,6 +19,7 @@ func baseGen() GenParams {
 		Versions: true, ChkRec: true, RmIndex: true, IndexCfg: -1, Tomb: 15, ROPct: 20,
 		WPublish: 45, WDelete: 18, WDeleteMulti: 6, WReopen: 10, WGC: 3, WSync: 2, WTrim: 3, WCompact: 3,
 		TrimKinds: []string{"offset", "count", "age"}, CompactKinds: []string{"updates", "deletes"},
+		BigEvery: 9, LargeEvery: 11,
 	}
 }
 
@@ -182,7 +183,8 @@ func seqProfile0(prop, tier string) *SeqProfile {
 			Obs: Obs{Scan: true, Next: true, Maxes: []int64{1, 2, 3, 32}, JudgeOpen: true},
 			Hist: func(id int, seed int64) *History {
 				gg := g
-				if id%10 == 9 { // bodies beyond 64 KiB (the reader's large-record path), several per segment and per scan batch
+				gg.Epoch0 = id%10 == 8 // times around the Unix epoch itself (negative microsecond values, with nanosecond digits)
+				if id%10 == 9 {        // bodies beyond 64 KiB (the reader's large-record path), several per segment and per scan batch
 					gg.VLens = []int{66000, 66000, 70000, 65505, 3, 20, 0}
 					gg.Rollovers = []int64{150000, 400000, 1000}
 					gg.Steps, gg.MaxBatch = 12, 3
@@ -242,7 +244,13 @@ func seqProfile0(prop, tier string) *SeqProfile {
 	case "C12":
 		g.WDelete, g.WDeleteMulti, g.WPublish = 30, 12, 40
 		return &SeqProfile{Prop: prop, Gen: g, NRandom: tierN(tier, 400, 40000), Module: "TraceAbs.tla", Cfg: "TraceAbs.cfg",
-			Obs:  Obs{Scan: true, JudgeDelete: true, Maxes: []int64{3, 32}},
+			Obs: Obs{Scan: true, JudgeDelete: true, Maxes: []int64{3, 32}},
+			Hist: func(id int, seed int64) *History {
+				if id%100 == 99 {
+					return genHugeHistory(id, seed)
+				}
+				return genHistory(id, seed, g)
+			},
 			Rule: "C12: every Delete/DeleteMulti result (set, content, size, error) judged, followed by a full scan.",
 		}
 	case "C11":
@@ -311,7 +319,11 @@ func seqProfile0(prop, tier string) *SeqProfile {
 	case "C19":
 		return &SeqProfile{Prop: prop, NRandom: 0, Module: "TraceHandles.tla", Cfg: "TraceHandles.cfg",
 			Design: []DesignRun{{Module: "Handles.tla", Cfg: tierS(tier, "handles_q.cfg", "handles_t.cfg"), Workers: 4, Timeout: 5 * time.Minute,
-				Note: "Handles.tla bounded exhaustive: OneWriter, WriterExclusive, Released"}},
+				Note: "Handles.tla bounded exhaustive: OneWriter, WriterExclusive, Released"},
+				{Module: "HandlesLock.tla", Cfg: "handleslock_q.cfg", Workers: 4, Timeout: 5 * time.Minute,
+					Note: "HandlesLock.tla: the flock protocol with file identity (open/create .lock, try the lock, rest of Open, release) interleaved for 3 handles: OneWriter, WriterExclusive, OneLockFile, LocksConsistent, Released, RefusalJustified"},
+				{Module: "HandlesLock.tla", Cfg: "handleslock_no_keepfile.cfg", Workers: 4, Timeout: 5 * time.Minute, Expect: "WriterExclusive,OneWriter",
+					Note: "negative control: a failed Open that unlinks the lock file (seeded change S36 at design level) lets a writer in beside a reader"}},
 			Extra: func(r *SeqRun) {
 				hs, n, err := handleHistsFromSpec(tierS(tier, "handlesgen_q.cfg", "handlesgen_t.cfg"), r.Scratch, 10*time.Minute)
 				if err != nil {
@@ -361,6 +373,7 @@ func seqProfile0(prop, tier string) *SeqProfile {
 		g.VLens = []int{0, 3, 10, 24}
 		g.KeyPool = []string{"n", "a", "b", "g"}
 		g.WDeleteMulti, g.WTrim, g.WCompact, g.ROPct = 0, 0, 0, 0
+		g.BigEvery, g.LargeEvery = 0, 0 // every file-system step of every operation is a case here: small histories only
 		g.WPublish, g.WDelete, g.WReopen, g.WSync, g.WGC = 40, 30, 12, 8, 2
 		g.Rollovers = []int64{60, 100, 150, 300, 5000}
 		g.TimeMode = "mono"
